@@ -32,7 +32,7 @@ type Op struct {
 	Tail sdk.Msg
 }
 
-var collidingDSeq = []uint64{1, 12, 256, 257, 65536, 65537, 1 << 32, 1<<32 + 1, 2, 120, 3}
+var collidingDSeq = []uint64{1, 12, 256, 257, 65536, 65537, 1 << 32, 1<<32 + 1, 2, 120, 3, 1 << 63, 1<<64 - 1, 1<<63 - 1}
 
 // the last two differ from others only in the case of the key (used when attrs.case-variants is set);
 // an empty value is legal on chain (only keys are validated)
@@ -107,6 +107,15 @@ func (g *gen) richAttrs(label string) types.Attributes {
 			}
 		}
 		out = append(out, cands[r.Choose(len(cands), label+".v")])
+	}
+	// a message may list its attributes in any order
+	if len(out) > 1 && r.Bool(50, label+".shuffle") {
+		perm := r.Permute(len(out), label+".order")
+		sh := make(types.Attributes, len(out))
+		for i, j := range perm {
+			sh[i] = out[j]
+		}
+		out = sh
 	}
 	return out
 }
@@ -514,7 +523,36 @@ func (g *gen) signAttrs() *Op {
 		a = g.anyActor("sa.actor")
 	}
 	p := g.actor("provider", "sa.prov")
-	msg := &atypes.MsgSignProviderAttributes{Owner: p.Bech, Auditor: a.Bech, Attributes: g.richAttrs("sa.attrs")}
+	attrs := g.richAttrs("sa.attrs")
+	// a correcting re-signature: an auditor changes the value of a key it attested earlier, possibly
+	// together with keys that are new to the record, in any order
+	if ks := keysOf(g.s.Attest); len(ks) > 0 && g.w.R.Bool(g.bias["sa.resign"], "sa.resign") {
+		rec := g.s.Attest[ks[g.w.R.Choose(len(ks), "sa.resign.which")]]
+		if au, pr := g.w.ActorByAddr(rec.Auditor), g.w.ActorByAddr(rec.Owner); au != nil && pr != nil && len(rec.Attributes) > 0 {
+			a, p = au, pr
+			old := rec.Attributes[g.w.R.Choose(len(rec.Attributes), "sa.resign.key")]
+			have := map[string]bool{}
+			for _, x := range rec.Attributes {
+				have[x.Key] = true
+			}
+			attrs = nil
+			for _, x := range attrUniverse {
+				if !have[x.Key] && g.w.R.Bool(35, "sa.resign.new") {
+					attrs = append(attrs, x)
+					have[x.Key] = true
+				}
+			}
+			changed := types.Attribute{Key: old.Key, Value: old.Value + "-2"}
+			for _, x := range attrUniverse {
+				if x.Key == old.Key && x.Value != old.Value {
+					changed = x
+				}
+			}
+			pos := g.w.R.Choose(len(attrs)+1, "sa.resign.pos")
+			attrs = append(attrs[:pos], append(types.Attributes{changed}, attrs[pos:]...)...)
+		}
+	}
+	msg := &atypes.MsgSignProviderAttributes{Owner: p.Bech, Auditor: a.Bech, Attributes: attrs}
 	return &Op{Kind: "SignProviderAttributes", Msg: msg, Required: a}
 }
 
